@@ -10,8 +10,11 @@ tools/harness/wasi_paths.c, ASan+UBSan; model = compiled Lean `pathsdriver`; the
 additionally evaluated on the real answers by an independent Python reference):
   args/environ  generated vectors (0–64 strings, lengths 0–4096, bytes 1–255) × buffer placements
                 (both orders, regions ending exactly at the end of memory): whole memory image compared
-  clock         interposed host clock: ids 0–5 × boundary/random (sec, nsec) incl. the I64 overflow
-                boundary (UBSan ↔ `.ub signedOverflow`); real host clocks: bracketed, monotonic
+  clock         interposed host clock: ids 0–5 × precisions {0,1,999999,10^6,10^9,2^63,random,…} × boundary/random
+                (sec, nsec) incl. the I64 overflow boundary (UBSan ↔ `.ub signedOverflow`): value AND which host
+                clock was read; histories of calls on the real host clocks in both ABI name spaces with ids and
+                precisions cycling: every reading bracketed by two direct readings of the host clock the
+                specification names (no tolerances), non-settable clocks never decrease; clock_res_get
   random_get    lengths {0,1,255,256,257,512,4096,2^20}: success, every byte of the region written,
                 nothing outside it
   proc_exit     codes in a forked child, exit status observed
@@ -130,18 +133,56 @@ def run_vectors(chk, exe, tier, broken, model_ok):
 NATIVE = {0: "CLOCK_REALTIME", 1: "CLOCK_MONOTONIC", 2: "CLOCK_PROCESS_CPUTIME_ID", 3: "CLOCK_THREAD_CPUTIME_ID"}
 
 
+PRECS = [0, 1, 999999, 1000000, 10 ** 9, 2 ** 63]
+
+
+def eval_history(ids, precs, answer):
+    """The property on one clock_time_get history (independent of the model): every reading of a valid id lies
+    between the two readings of the host clock the specification names for that id taken directly around the call
+    (no tolerance), readings of the non-settable clocks (monotonic, process and thread CPU time) never decrease across
+    the whole history whatever the precision, other ids give EINVAL.  Returns None or (key, text, index)."""
+    recs = [tuple(int(x) for x in t.split(":")) for t in answer.split()]
+    last = {}
+    for i, (e, v, t0, t1) in enumerate(recs):
+        cid, pr = ids[i % len(ids)], precs[i % len(precs)]
+        if cid >= 4:
+            if e != 28:
+                return (f"clock-{cid}-einval", f"call #{i} clock_time_get(id={cid}, precision={pr}) returned {e}, EINVAL (28) required", i)
+            continue
+        if e != 0:
+            return (f"clock-{cid}-fails", f"call #{i} clock_time_get(id={cid}, precision={pr}) failed with errno {e}", i)
+        if not (t0 <= v <= t1):
+            return (f"clock-{cid}-outside-host-bracket",
+                    f"call #{i} clock_time_get(id={cid}, precision={pr}) = {v} is not between the readings {t0} and {t1} of the host's {NATIVE[cid]} taken directly before and after the call ({t0 - v} ns before the earlier one)" if v < t0 else
+                    f"call #{i} clock_time_get(id={cid}, precision={pr}) = {v} is later than the reading {t1} of the host's {NATIVE[cid]} taken directly after the call", i)
+        if cid in (1, 2, 3) and cid in last and v < last[cid][0]:
+            j = last[cid][1]
+            return ("clock-monotonic-decreases" if cid == 1 else f"clock-{cid}-decreases",
+                    f"{NATIVE[cid]} went backwards: call #{j} (precision={precs[j % len(precs)]}) returned {last[cid][0]}, the later call #{i} (precision={pr}) returned {v} ({last[cid][0] - v} ns earlier)", i)
+        last[cid] = (v, i)
+    return None
+
+
+def history_window(ids, precs, answer, i):
+    recs = answer.split()
+    return [{"call": k, "id": ids[k % len(ids)], "precision": precs[k % len(precs)], "errno:value:hostBefore:hostAfter": recs[k]}
+            for k in range(max(0, i - 6), min(len(recs), i + 1))]
+
+
 def run_clocks(chk, exe, h, tier, broken, model_ok):
     rng = chk.rng
+    precs = PRECS + [rng.randrange(0, 2 ** 64)]
     times = [(0, 0), (0, 1), (1, 0), (1, 999999999), (1700000000, 123456789), (2 ** 31, 5), (2 ** 32 + 7, 999999999),
              (9223372036, 854775807), (9223372036, 854775808), (9223372036, 999999999), (9223372037, 0), (2 ** 62, 1)]
     times += [(rng.randrange(0, 9223372036), rng.randrange(0, 10 ** 9)) for _ in range(20 if tier == "quick" else 400)]
-    lines = [f"clockf {cid} {s} {ns}" for cid in range(6) for (s, ns) in times]
+    cases = [(cid, precs[(j + cid) % len(precs)], s, ns) for cid in range(6) for j, (s, ns) in enumerate(times)]
+    cases += [(cid, pr, 1700000000, 5) for cid in range(6) for pr in precs + [2 ** 64 - 1, 999, 5 * 10 ** 7]]   # every precision on every id
+    lines = [f"clockf {cid} {pr} {s} {ns}" for cid, pr, s, ns in cases]
     real = wp.batch_once(exe, lines)
     model = vlib.DriverProc(PATHSDRIVER).batch(lines) if model_ok else None
     kinds = {}
-    for i, line in enumerate(lines):
-        _, cid, s, ns = line.split()
-        cid, s, ns = int(cid), int(s), int(ns)
+    for i, (cid, pr, s, ns) in enumerate(cases):
+        line = lines[i]
         v = s * 10 ** 9 + ns
         r = real[i]
         chk.count_case(line, True, {"line": line, "real": r} if i % 40 == 0 else None)
@@ -154,36 +195,52 @@ def run_clocks(chk, exe, h, tier, broken, model_ok):
         k = r.split()[0] if not r.startswith("crash") else "overflow-trap"
         kinds[k] = kinds.get(k, 0) + 1
         if exp is not None and r != exp:
-            chk.violation(f"clock-{cid}-{'einval' if cid >= 4 else 'value'}", f"clock_time_get(id={cid}) with host time ({s}, {ns}): real `{r}`, the property requires `{exp}`",
-                          {"kind": "clock", "line": line, "real": r, "expected": exp}, True)
+            rt = r.split()
+            if cid < 4 and len(rt) == 3 and rt[:2] == exp.split()[:2]:
+                key = f"clock-{cid}-wrong-host-clock"
+                what = f"clock_time_get(id={cid}, precision={pr}) reads the host clock {rt[2]} instead of {NATIVE[cid]}: the host clock must depend on the clock id only (a different clock lags or leads the named one, so a history of calls mixing precisions sees time go backwards)"
+            else:
+                key = f"clock-{cid}-{'einval' if cid >= 4 else 'value'}"
+                what = f"clock_time_get(id={cid}, precision={pr}) with host time ({s}, {ns}): real `{r}`, the property requires `{exp}`"
+            chk.violation(key, what, {"kind": "clock", "line": line, "real": r, "expected": exp}, True)
         if model is not None:
             m = model[i]
             same = (m == r) or (m.startswith("ub signedOverflow") and r.startswith("crash ubsan") and "signed_integer_overflow" in r)
             if not same:
                 broken.append({"kind": "correspondence", "msg": f"{line}: real `{r[:80]}` model `{m[:80]}`"})
-    # real host clocks: bracketed by direct clock_gettime calls, monotonic clock non-decreasing
-    last = None
-    nreal = 0
-    for rep in range(20 if tier == "quick" else 200):
+    # histories on the REAL host clocks, both ABI name spaces, precisions cycling against the ids
+    n = 700 if tier == "quick" else 6000
+    hists = []
+    for abi in (0, 1):
+        hists.append((abi, n, [0, 1, 2, 3, 4, 5], precs))                 # 6 ids x 7 precisions: every pair occurs
+        hists.append((abi, n, [1], precs))                                # monotonic only, precision changes every call
+        hists.append((abi, n // 2, [1, 3, 1, 2], [1, 10 ** 9, 0, 10 ** 6, 2 ** 63]))
+    ncalls = 0
+    for abi, cnt, ids, prs in hists:
+        line = f"clockhist {abi} {cnt} {','.join(map(str, ids))} {','.join(map(str, prs))}"
+        ans = h.ask(line)
+        ncalls += cnt
+        chk.count_case(line, True, {"line": line, "first": ans[:80]} if abi == 1 and ids == [1] else None)
+        if ans.startswith("crash") or ans.startswith("err"):
+            chk.violation("clock-history-crash", f"clock_time_get history crashed: {ans[:160]}", {"kind": "clock", "line": line, "real": ans, "expected": "per-call records"}, True)
+            continue
+        bad = eval_history(ids, prs, ans)
+        if bad:
+            key, text, idx = bad
+            chk.violation(key, f"history of {cnt} clock_time_get calls ({'snapshot_preview1' if abi else 'unstable'}; ids cycling {ids}, precisions cycling {prs}): {text}",
+                          {"kind": "clockhist", "abi": abi, "n": cnt, "ids": ids, "precisions": prs, "line": line, "failing_call": idx,
+                           "calls_up_to_failure": history_window(ids, prs, ans, idx)}, True)
+    # clock_res_get: same id mapping, resolution of the named host clock
+    for abi in (0, 1):
         for cid in range(6):
-            r = h.ask(f"clockr {cid}").split()
-            nreal += 1
-            chk.count_case(("clockr", cid, rep), True, None)
-            if cid >= 4:
-                if r[0] != "28":
-                    chk.violation(f"clock-{cid}-einval", f"clock_time_get(id={cid}) returned {r[0]}, EINVAL (28) required", {"kind": "clock", "line": f"clockr {cid}", "real": " ".join(r), "expected": "28 -"}, True)
-                continue
-            if r[0] != "0":
-                chk.violation(f"clock-{cid}-fails", f"clock_time_get(id={cid}) failed with {r[0]}", {"kind": "clock", "line": f"clockr {cid}", "real": " ".join(r), "expected": "0 ..."}, True)
-                continue
-            v, t0, t1 = int(r[1]), int(r[2]) * 10 ** 9 + int(r[3]), int(r[4]) * 10 ** 9 + int(r[5])
-            if not (t0 <= v <= t1):
-                chk.violation(f"clock-{cid}-value", f"clock_time_get(id={cid}) = {v} is not between the host clock readings {t0} and {t1} taken around it", {"kind": "clock", "line": f"clockr {cid}", "real": " ".join(r), "expected": "t0 <= v <= t1"}, True)
-            if cid == 1:
-                if last is not None and v < last:
-                    chk.violation("clock-monotonic-decreases", f"monotonic clock went from {last} to {v}", {"kind": "clock", "line": "clockr 1", "real": str(v), "expected": f">= {last}"}, True)
-                last = v
-    chk.coverage["clocks"] = {"interposed_cases": len(lines), "real_clock_reads": nreal, "outcomes": kinds}
+            r = h.ask(f"clockres {abi} {cid}").split()
+            chk.count_case(("clockres", abi, cid), True, None)
+            ok = (r[0] == "28") if cid >= 4 else (r[0] == "0" and len(r) == 3 and r[1] == r[2])
+            if not ok:
+                chk.violation(f"clock-res-{cid}", f"clock_res_get(id={cid}) ({'snapshot_preview1' if abi else 'unstable'}): real `{' '.join(r)}` (errno, value, resolution of the host's {NATIVE.get(cid, 'n/a')}); required: {'EINVAL' if cid >= 4 else 'success and equal values'}",
+                              {"kind": "clock", "line": f"clockres {abi} {cid}", "real": " ".join(r), "expected": "28 -" if cid >= 4 else f"0 {r[-1]} {r[-1]}"}, True)
+    chk.coverage["clocks"] = {"interposed_cases": len(lines), "precisions": [str(p) for p in precs], "history_calls_real_clocks": ncalls,
+                              "histories": len(hists), "outcomes": kinds}
 
 
 # ----------------------------------------------------------------------------- random / exit / spawn
@@ -402,6 +459,22 @@ def replay(path):
             out = h.ask(f"random {r['len']}")
             print(f"replay random_get(len={r['len']}): real `{out}` (errno, bytes written, outside changed), required `{r['expected']}`")
             rc = 0 if out == r["expected"] else 1
+        elif kind == "clockhist":
+            # a timing history: the property must hold on EVERY run, so up to 5 attempts are made and one failing attempt is a reproduction
+            rc = 0
+            print("replay of a timing history on the real host clocks: readings differ from run to run, so the history is re-run up to 5 times; "
+                  "the property must hold on every run, one failing run reproduces the violation (a clock that lags the named one fails on practically every call)")
+            for attempt in range(1, 6):
+                ans = h.ask(r["line"])
+                bad = None if ans.startswith(("crash", "err")) else eval_history(r["ids"], r["precisions"], ans)
+                if ans.startswith(("crash", "err")) or bad:
+                    print(f"replay attempt {attempt}/5 of `{r['line'][:100]}`: FAILS — {bad[1] if bad else ans[:200]}")
+                    if bad:
+                        for c in history_window(r["ids"], r["precisions"], ans, bad[2]):
+                            print("   ", c)
+                    rc = 1
+                    break
+                print(f"replay attempt {attempt}/5 of `{r['line'][:100]}`: {r['n']} calls, every reading inside its host bracket, no clock went backwards")
         elif kind == "spawnx":
             out = h.ask(spawnx_line(r["exports"], r["calls"], r["argbase"]))
             print(f"replay thread-spawn x{r['calls']} with function exports {r['exports']!r}: real `{out[:200]}`, required `{r['expected'][:200]}`")
